@@ -287,7 +287,10 @@ def scenario(exe, r, run, stats, witness):
     if nstart > 1:
         sim.cmd("ctx 0 srv_nstart=%d" % nstart)
     pending_notifs = {}
-    sim.cmd("res 0 %s body=fixed:73 sep=%d" % (b"s".hex(), r.choice([200, 5000])))
+    # (the handler of the deferred resource may take a few ms: virtual time passes inside
+    # the library call that runs it, so "now" sampled before the call is stale after it)
+    sim.cmd("res 0 %s body=fixed:73 sep=%d busy=%d" % (b"s".hex(), r.choice([200, 5000]),
+                                                      r.choice([0, 0, 1, 5, 40])))
     sim.cmd("res 0 %s body=fixed:72 sref=1" % b"r".hex())
     silent = set(i for i in range(npeers) if r.random() < 0.2)
 
